@@ -830,7 +830,6 @@ func checkEscapeDecisionTables(c *core.Ctx, prog *core.Prog) {
 	}
 }
 
-
 // escPair prints the escape %ab with non-printable bytes as \xNN.
 func escPair(a, b int) string {
 	one := func(c int) string {
